@@ -143,6 +143,31 @@ pub fn run_glue(seed: u64, tier: &str, out: &mut Out) {
         if verdict == "ok" && (keep.position() != want || !keep.is_finished()) { verdict = format!("FAIL with_finish: position {} expected {want} finished {}", keep.position(), keep.is_finished()); }
         drop(keep);
         if verdict == "ok" && w2.upgrade().is_some() { verdict = "FAIL upgrade after the last strong handle is gone gave Some".into(); }
+        // `ProgressState::set_len` / `set_pos` from an `update` closure (the API custom keys and callers see)
+        if verdict == "ok" {
+            let pb = ProgressBar::hidden();
+            pb.update(|s| { s.set_len(len); s.set_pos(pos); });
+            if pb.length() != Some(len) || pb.position() != pos { verdict = format!("FAIL update(set_len, set_pos): length {:?} position {}", pb.length(), pb.position()); }
+        }
+        // targets on the process's own streams: not a terminal here (the harness runs with its output captured), hence hidden and silent;
+        // `MultiProgress::new()` / `default()` draw to stderr; removing a bar that is not a member is a no-op
+        if verdict == "ok" && !console::Term::stdout().is_term() && !console::Term::stderr().is_term() {
+            for (name, t) in [("stdout", indicatif::ProgressDrawTarget::stdout()), ("stdout_with_hz", indicatif::ProgressDrawTarget::stdout_with_hz(5)),
+                              ("stderr_with_hz", indicatif::ProgressDrawTarget::stderr_with_hz(5)), ("stderr", indicatif::ProgressDrawTarget::stderr())] {
+                if !t.is_hidden() { verdict = format!("FAIL ProgressDrawTarget::{name}() is not hidden although the stream is not a terminal"); }
+                let pb = ProgressBar::with_draw_target(Some(3), t); pb.inc(1); pb.println("x"); pb.finish();
+                if pb.position() != 3 || !pb.is_finished() { verdict = format!("FAIL bar on ProgressDrawTarget::{name}(): position {} finished {}", pb.position(), pb.is_finished()); }
+            }
+            for mp in [indicatif::MultiProgress::new(), indicatif::MultiProgress::default()] {
+                if !mp.is_hidden() { verdict = "FAIL MultiProgress::new() is not hidden although stderr is not a terminal".into(); }
+                let a = mp.add(ProgressBar::new(5)); let stranger = ProgressBar::hidden(); stranger.set_position(2);
+                mp.remove(&stranger); mp.remove(&stranger);
+                a.inc(2); let _ = mp.println("x");
+                if a.position() != 2 || stranger.position() != 2 { verdict = "FAIL MultiProgress::new(): member or stranger state changed".into(); }
+                mp.remove(&a); mp.remove(&a); a.inc(1);
+                if a.position() != 3 { verdict = "FAIL removed bar lost its state".into(); }
+            }
+        }
         out.emit(&format!("NOMODEL {case}"), &format!(" ORACLE {verdict}"));
     }
 }
